@@ -1,1 +1,352 @@
 // Kani harnesses compiled inside rs-matter/src/bdx.rs (module `verif_kani`).
+
+mod c17 {
+    use super::*;
+
+    fn any_tc() -> TransferControl {
+        let version: u8 = kani::any();
+        kani::assume(version < 16); // legal: a 4-bit field
+        TransferControl {
+            version,
+            sender_drive: kani::any(),
+            receiver_drive: kani::any(),
+            async_mode: kani::any(),
+        }
+    }
+
+    fn any_rc() -> RangeControl {
+        RangeControl {
+            def_len: kani::any(),
+            start_offset: kani::any(),
+            wide_range: kani::any(),
+        }
+    }
+
+    // TIER: quick
+    // KIND: complete
+    #[kani::proof]
+    fn c17_bdx_control_bytes() {
+        let tc = any_tc();
+        let b = tc.to_byte();
+        kani::assert(
+            b == tc.version | (tc.sender_drive as u8) << 4 | (tc.receiver_drive as u8) << 5 | (tc.async_mode as u8) << 6,
+            "C17.bdx.transfer_control.layout"
+        );
+        kani::assert(TransferControl::from_byte(b) == tc, "C17.bdx.transfer_control.roundtrip");
+        let rc = any_rc();
+        let c = rc.to_byte();
+        kani::assert(
+            c == (rc.def_len as u8) | (rc.start_offset as u8) << 1 | (rc.wide_range as u8) << 4,
+            "C17.bdx.range_control.layout"
+        );
+        kani::assert(RangeControl::from_byte(c) == rc, "C17.bdx.range_control.roundtrip");
+        // decoders are total and ignore reserved bits
+        let x: u8 = kani::any();
+        kani::assert(TransferControl::from_byte(x).to_byte() == x & 0x7f, "C17.bdx.transfer_control.reserved_bit_dropped");
+        kani::assert(RangeControl::from_byte(x).to_byte() == x & 0x13, "C17.bdx.range_control.reserved_bits_dropped");
+        kani::cover!(tc.version == 15 && tc.async_mode, "largest version");
+    }
+
+    const W: usize = 40;
+
+    /// `*Init`: all control flags, block sizes, offsets/lengths that fit the chosen width, file
+    /// designators of 0..=4 bytes and metadata of 0..=3 bytes.
+    // TIER: quick
+    // KIND: bounded (file designator <= 4 bytes, metadata <= 3 bytes)
+    #[kani::proof]
+    #[kani::unwind(10)]
+    fn c17_bdx_transfer_init_roundtrip() {
+        let fd: [u8; 4] = kani::any();
+        let md: [u8; 3] = kani::any();
+        let (nf, nm): (usize, usize) = (kani::any(), kani::any());
+        kani::assume(nf <= 4 && nm <= 3);
+        let rc = any_rc();
+        let start_offset: u64 = kani::any();
+        let length: u64 = kani::any();
+        // legal: a value fits the width announced by the wide-range flag
+        kani::assume(rc.wide_range || (start_offset <= u32::MAX as u64 && length <= u32::MAX as u64));
+        let msg = TransferInit {
+            transfer_control: any_tc(),
+            range_control: rc,
+            max_block_size: kani::any(),
+            start_offset,
+            length,
+            file_designator: &fd[..nf],
+            metadata: &md[..nm],
+        };
+        let mut arr = [0u8; W];
+        let mut wb = WriteBuf::new(&mut arr);
+        kani::assert(msg.write(&mut wb).is_ok(), "C17.bdx.init.write_fits");
+        let w = if rc.wide_range { 8 } else { 4 };
+        let expect_len = 4 + if rc.start_offset { w } else { 0 } + if rc.def_len { w } else { 0 } + 2 + nf + nm;
+        kani::assert(wb.as_slice().len() == expect_len, "C17.bdx.init.encoded_length");
+
+        let res_ = TransferInit::parse(wb.as_slice());
+        kani::assert(res_.is_ok(), "C17.bdx.init.roundtrip.decodes");
+        if let Ok(back) = res_ {
+            kani::assert(back.transfer_control == msg.transfer_control, "C17.bdx.init.roundtrip.transfer_control");
+            kani::assert(back.range_control == rc, "C17.bdx.init.roundtrip.range_control");
+            kani::assert(back.max_block_size == msg.max_block_size, "C17.bdx.init.roundtrip.max_block_size");
+            kani::assert(
+                back.start_offset == if rc.start_offset { start_offset } else { 0 },
+                "C17.bdx.init.roundtrip.start_offset"
+            );
+            kani::assert(back.length == if rc.def_len { length } else { 0 }, "C17.bdx.init.roundtrip.length");
+            kani::assert(back.file_designator.len() == nf && back.metadata.len() == nm, "C17.bdx.init.roundtrip.tail_lengths");
+            let j: usize = kani::any();
+            if j < nf {
+                kani::assert(back.file_designator[j] == fd[j], "C17.bdx.init.roundtrip.file_designator");
+            }
+            if j < nm {
+                kani::assert(back.metadata[j] == md[j], "C17.bdx.init.roundtrip.metadata");
+            }
+        }
+        kani::cover!(rc.wide_range && rc.start_offset && rc.def_len && nf == 4 && nm == 3, "widest message");
+        kani::cover!(!rc.start_offset && !rc.def_len && nf == 0 && nm == 0, "narrowest message");
+        kani::cover!(!rc.wide_range && rc.def_len && length == u32::MAX as u64, "largest 32-bit length");
+    }
+
+    /// `*Init` decoder on ARBITRARY bytes (0..=26): a value or an error, never a panic; accepted
+    /// iff the layout fits; the value is the layout's reading of the bytes.
+    // TIER: quick
+    // KIND: bounded (input <= 26 bytes: the longest header (22) plus 4 bytes of designator/metadata)
+    #[kani::proof]
+    #[kani::unwind(10)]
+    fn c17_bdx_transfer_init_parse_total() {
+        const L: usize = 26;
+        let bytes: [u8; L] = kani::any();
+        let len: usize = kani::any();
+        kani::assume(len <= L);
+
+        let r = TransferInit::parse(&bytes[..len]);
+
+        let (so, dl, wide) = (bytes[1] & 2 != 0, bytes[1] & 1 != 0, bytes[1] & 0x10 != 0);
+        let w = if wide { 8 } else { 4 };
+        let fdl_at = 4 + if so { w } else { 0 } + if dl { w } else { 0 };
+        let header_ok = len >= fdl_at + 2;
+        let fdl = if header_ok { u16::from_le_bytes([bytes[fdl_at], bytes[fdl_at + 1]]) as usize } else { 0 };
+        let well_formed = header_ok && len - (fdl_at + 2) >= fdl;
+        kani::assert(r.is_ok() == well_formed, "C17.bdx.init.parse.ok_iff_layout_fits");
+        match &r {
+            Ok(m) => {
+                kani::assert(m.transfer_control.to_byte() == bytes[0] & 0x7f, "C17.bdx.init.parse.transfer_control");
+                kani::assert(m.range_control.to_byte() == bytes[1] & 0x13, "C17.bdx.init.parse.range_control");
+                kani::assert(m.max_block_size == u16::from_le_bytes([bytes[2], bytes[3]]), "C17.bdx.init.parse.max_block_size");
+                kani::assert(m.file_designator.len() == fdl, "C17.bdx.init.parse.designator_len");
+                kani::assert(m.metadata.len() == len - (fdl_at + 2) - fdl, "C17.bdx.init.parse.metadata_is_rest");
+                let j: usize = kani::any();
+                if j < fdl {
+                    kani::assert(m.file_designator[j] == bytes[fdl_at + 2 + j], "C17.bdx.init.parse.designator_bytes");
+                }
+                if !so {
+                    kani::assert(m.start_offset == 0, "C17.bdx.init.parse.absent_offset_is_zero");
+                } else if !wide {
+                    kani::assert(
+                        m.start_offset == u32::from_le_bytes([bytes[4], bytes[5], bytes[6], bytes[7]]) as u64,
+                        "C17.bdx.init.parse.offset32"
+                    );
+                }
+                if !dl {
+                    kani::assert(m.length == 0, "C17.bdx.init.parse.absent_length_is_zero");
+                }
+            }
+            Err(e) => kani::assert(e.code() == ErrorCode::TruncatedPacket, "C17.bdx.init.parse.err_is_truncated"),
+        }
+        kani::cover!(well_formed && len == L && wide && so && dl, "longest accepted");
+        kani::cover!(header_ok && !well_formed, "designator longer than the message");
+        kani::cover!(header_ok && fdl == 0xFFFF, "absurd designator length refused");
+        kani::cover!(len == 0, "empty");
+    }
+
+    // TIER: quick
+    // KIND: bounded (metadata <= 3 bytes)
+    #[kani::proof]
+    #[kani::unwind(10)]
+    fn c17_bdx_transfer_accept_roundtrip() {
+        let md: [u8; 3] = kani::any();
+        let nm: usize = kani::any();
+        kani::assume(nm <= 3);
+        let receive: bool = kani::any();
+        let rc = any_rc();
+        let length: u64 = kani::any();
+        kani::assume(rc.wide_range || length <= u32::MAX as u64);
+        let msg = TransferAccept {
+            receive,
+            transfer_control: any_tc(),
+            range_control: rc,
+            max_block_size: kani::any(),
+            length,
+            metadata: &md[..nm],
+        };
+        let mut arr = [0u8; W];
+        let mut wb = WriteBuf::new(&mut arr);
+        kani::assert(msg.write(&mut wb).is_ok(), "C17.bdx.accept.write_fits");
+
+        let res_ = TransferAccept::parse(receive, wb.as_slice());
+        kani::assert(res_.is_ok(), "C17.bdx.accept.roundtrip.decodes");
+        if let Ok(back) = res_ {
+            kani::assert(back.receive == receive, "C17.bdx.accept.roundtrip.kind");
+            kani::assert(back.transfer_control == msg.transfer_control, "C17.bdx.accept.roundtrip.transfer_control");
+            kani::assert(back.max_block_size == msg.max_block_size, "C17.bdx.accept.roundtrip.max_block_size");
+            if receive {
+                kani::assert(back.range_control == rc, "C17.bdx.accept.roundtrip.range_control");
+                kani::assert(back.length == if rc.def_len { length } else { 0 }, "C17.bdx.accept.roundtrip.length");
+            } else {
+                // SendAccept carries neither
+                kani::assert(back.range_control == RangeControl::default() && back.length == 0, "C17.bdx.accept.roundtrip.send_accept_has_no_range");
+            }
+            kani::assert(back.metadata.len() == nm, "C17.bdx.accept.roundtrip.metadata_len");
+            let j: usize = kani::any();
+            if j < nm {
+                kani::assert(back.metadata[j] == md[j], "C17.bdx.accept.roundtrip.metadata");
+            }
+        }
+        kani::cover!(receive && rc.def_len && rc.wide_range && nm == 3, "widest ReceiveAccept");
+        kani::cover!(!receive && nm == 0, "bare SendAccept");
+    }
+
+    // TIER: quick
+    // KIND: bounded (input <= 14 bytes: the longest header (12) plus 2 bytes of metadata)
+    #[kani::proof]
+    #[kani::unwind(10)]
+    fn c17_bdx_transfer_accept_parse_total() {
+        const L: usize = 14;
+        let bytes: [u8; L] = kani::any();
+        let len: usize = kani::any();
+        kani::assume(len <= L);
+        let receive: bool = kani::any();
+
+        let r = TransferAccept::parse(receive, &bytes[..len]);
+
+        let need = if !receive {
+            3
+        } else {
+            4 + if bytes[1] & 1 != 0 { if bytes[1] & 0x10 != 0 { 8 } else { 4 } } else { 0 }
+        };
+        kani::assert(r.is_ok() == (len >= need), "C17.bdx.accept.parse.ok_iff_layout_fits");
+        match &r {
+            Ok(m) => {
+                kani::assert(m.transfer_control.to_byte() == bytes[0] & 0x7f, "C17.bdx.accept.parse.transfer_control");
+                let mbs_at = if receive { 2 } else { 1 };
+                kani::assert(
+                    m.max_block_size == u16::from_le_bytes([bytes[mbs_at], bytes[mbs_at + 1]]),
+                    "C17.bdx.accept.parse.max_block_size"
+                );
+                kani::assert(m.metadata.len() == len - need, "C17.bdx.accept.parse.metadata_is_rest");
+            }
+            Err(e) => kani::assert(e.code() == ErrorCode::TruncatedPacket, "C17.bdx.accept.parse.err_is_truncated"),
+        }
+        kani::cover!(receive && len == L && need == 12, "longest ReceiveAccept");
+        kani::cover!(receive && len == 11 && need == 12, "one byte short");
+        kani::cover!(!receive && len == 2, "short SendAccept");
+    }
+
+    /// `Block`/`BlockEof`, `BlockQuery`/`BlockAck`/`BlockAckEof`, `BlockQueryWithSkip`.
+    // TIER: quick
+    // KIND: bounded (block data <= 5 bytes; arbitrary input <= 14 bytes)
+    #[kani::proof]
+    #[kani::unwind(10)]
+    fn c17_bdx_block_messages() {
+        let mut arr = [0u8; W];
+        let data: [u8; 5] = kani::any();
+        let n: usize = kani::any();
+        kani::assume(n <= 5);
+        let ctr: u32 = kani::any();
+        let skip: u64 = kani::any();
+        let j: usize = kani::any();
+
+        {
+            let mut wb = WriteBuf::new(&mut arr);
+            let b = Block { block_counter: ctr, data: &data[..n] };
+            kani::assert(b.write(&mut wb).is_ok(), "C17.bdx.block.write_fits");
+            kani::assert(wb.as_slice().len() == 4 + n, "C17.bdx.block.encoded_length");
+            let res_ = Block::parse(wb.as_slice());
+            kani::assert(res_.is_ok(), "C17.bdx.block.roundtrip.decodes");
+            if let Ok(back) = res_ {
+                kani::assert(back.block_counter == ctr && back.data.len() == n, "C17.bdx.block.roundtrip.counter_and_len");
+                if j < n {
+                    kani::assert(back.data[j] == data[j], "C17.bdx.block.roundtrip.data");
+                }
+            }
+        }
+        {
+            let mut wb = WriteBuf::new(&mut arr);
+            let q = BlockQuery { block_counter: ctr };
+            kani::assert(q.write(&mut wb).is_ok() && wb.as_slice().len() == 4, "C17.bdx.query.encoded_length");
+            kani::assert(BlockQuery::parse(wb.as_slice()).ok() == Some(q), "C17.bdx.query.roundtrip");
+        }
+        {
+            let mut wb = WriteBuf::new(&mut arr);
+            let q = BlockQueryWithSkip { block_counter: ctr, bytes_to_skip: skip };
+            kani::assert(q.write(&mut wb).is_ok() && wb.as_slice().len() == 12, "C17.bdx.query_skip.encoded_length");
+            kani::assert(BlockQueryWithSkip::parse(wb.as_slice()).ok() == Some(q), "C17.bdx.query_skip.roundtrip");
+        }
+
+        // decoders on arbitrary bytes
+        const L: usize = 14;
+        let bytes: [u8; L] = kani::any();
+        let len: usize = kani::any();
+        kani::assume(len <= L);
+        let c = u32::from_le_bytes([bytes[0], bytes[1], bytes[2], bytes[3]]);
+        match Block::parse(&bytes[..len]) {
+            Ok(b) => kani::assert(len >= 4 && b.block_counter == c && b.data.len() == len - 4, "C17.bdx.block.parse.value"),
+            Err(e) => kani::assert(len < 4 && e.code() == ErrorCode::TruncatedPacket, "C17.bdx.block.parse.short_refused"),
+        }
+        match BlockQuery::parse(&bytes[..len]) {
+            Ok(q) => kani::assert(len >= 4 && q.block_counter == c, "C17.bdx.query.parse.value"),
+            Err(e) => kani::assert(len < 4 && e.code() == ErrorCode::TruncatedPacket, "C17.bdx.query.parse.short_refused"),
+        }
+        match BlockQueryWithSkip::parse(&bytes[..len]) {
+            Ok(q) => kani::assert(
+                len >= 12
+                    && q.block_counter == c
+                    && q.bytes_to_skip
+                        == u64::from_le_bytes([bytes[4], bytes[5], bytes[6], bytes[7], bytes[8], bytes[9], bytes[10], bytes[11]]),
+                "C17.bdx.query_skip.parse.value"
+            ),
+            Err(e) => kani::assert(len < 12 && e.code() == ErrorCode::TruncatedPacket, "C17.bdx.query_skip.parse.short_refused"),
+        }
+        kani::cover!(n == 5, "largest block");
+        kani::cover!(n == 0, "empty BlockEof");
+        kani::cover!(len == 11, "BlockQueryWithSkip one byte short");
+        kani::cover!(len == L, "longest arbitrary input");
+    }
+
+    // TIER: quick
+    // KIND: complete
+    #[kani::proof]
+    fn c17_bdx_status_report() {
+        const ALL: [BdxStatus; 14] = [
+            BdxStatus::LengthTooLarge,
+            BdxStatus::LengthTooShort,
+            BdxStatus::LengthMismatch,
+            BdxStatus::LengthRequired,
+            BdxStatus::BadMessageContents,
+            BdxStatus::BadBlockCounter,
+            BdxStatus::UnexpectedMessage,
+            BdxStatus::ResponderBusy,
+            BdxStatus::TransferFailedUnknownError,
+            BdxStatus::TransferMethodNotSupported,
+            BdxStatus::FileDesignatorUnknown,
+            BdxStatus::StartOffsetNotSupported,
+            BdxStatus::VersionNotSupported,
+            BdxStatus::Unknown,
+        ];
+        let i: usize = kani::any();
+        kani::assume(i < ALL.len());
+        let mut arr = [0u8; 8];
+        let mut wb = WriteBuf::new(&mut arr);
+        kani::assert(ALL[i].as_report().write(&mut wb).is_ok(), "C17.bdx.status.write_fits");
+        let mut rb = ReadBuf::new(wb.as_slice());
+        let res_ = StatusReport::read(&mut rb);
+        kani::assert(res_.is_ok(), "C17.bdx.status.decodes");
+        if let Ok(sr) = res_ {
+            kani::assert(
+                sr.general_code == GeneralCode::Failure && sr.proto_id == PROTO_ID_BDX as u32 && sr.proto_data.is_empty(),
+                "C17.bdx.status.is_bdx_failure_report"
+            );
+            kani::assert(BdxStatus::from_u16(sr.proto_code) == Some(ALL[i]), "C17.bdx.status.code_roundtrip");
+        }
+        kani::cover!(i == 13, "last status");
+    }
+}
